@@ -295,6 +295,53 @@ func vfH_C05_redirect() {
 	vfrt.Assert(nw == "tcp" && addr == net.JoinHostPort(wantH, wantP), "redirect/first-matching-rule-wins-empty-means-any-or-unchanged")
 }
 
+//vf:assume C05-dialer: the real Dialer.DialContext with a redirect function built by the real DialRedirectFromHostPortPairs from one --connect-to rule (a.example:443 -> 10.0.0.5:8443) and retry attempts 1..3 over a scripted inner dial function whose attempts fail or succeed (a run of 0..attempts failures first); every attempt of every dial - the first and the retries - goes to the address the rules give for that hop; the dialer's metric methods are no-ops in the model (C13 decides them)
+
+func vfNopDialerMetric(m *dialerMetrics, addr string) {}
+
+//vf:override (*github.com/saucelabs/forwarder.dialerMetrics).retry = vfNopDialerMetric
+//vf:override (*github.com/saucelabs/forwarder.dialerMetrics).error = vfNopDialerMetric
+//vf:override (*github.com/saucelabs/forwarder.dialerMetrics).dial = vfNopDialerMetric
+//vf:override (*github.com/saucelabs/forwarder.dialerMetrics).close = vfNopDialerMetric
+
+//vf:harness property=C05 nopanic reach=dialer-redirected-retry,dialer-unredirected
+func vfH_C05_dialer() {
+	attempts := 1 + vfrt.Choice("retry-attempts", 3)
+	d := &Dialer{metrics: &dialerMetrics{}, rt: DialRetryConfig{Attempts: attempts}}
+	if !vfrt.Symbolic() {
+		d.metrics = newDialerMetrics(nil, "")
+	}
+	d.rd = DialRedirectFromHostPortPairs([]HostPortPair{{Src: HostPort{Host: "a.example", Port: "443"}, Dst: HostPort{Host: "10.0.0.5", Port: "8443"}}})
+	fails := vfrt.Choice("failing-attempts", attempts+1)
+	var asked []string
+	d.testingDialContext = func(ctx context.Context, network, address string) (net.Conn, error) {
+		asked = append(asked, network+" "+address)
+		if len(asked) <= fails {
+			return nil, errors.New("connection refused")
+		}
+		return martian.NewVfConn(nil), nil
+	}
+	addr := []string{"a.example:443", "a.example:80", "b.example:443"}[vfrt.Choice("address", 3)]
+	want := "tcp " + addr
+	if addr == "a.example:443" {
+		want = "tcp 10.0.0.5:8443"
+		if fails > 0 {
+			vfrt.Reach("dialer-redirected-retry")
+		}
+	} else {
+		vfrt.Reach("dialer-unredirected")
+	}
+	c, err := d.DialContext(context.Background(), "tcp", addr)
+	vfrt.Assert((err == nil) == (fails < attempts), "dialer/succeeds-iff-some-attempt-succeeds")
+	vfrt.Assert(len(asked) >= 1, "dialer/dialled")
+	for _, a := range asked {
+		vfrt.Assert(a == want, "dialer/every-attempt-goes-to-the-address-the-rules-give")
+	}
+	if err == nil {
+		c.Close()
+	}
+}
+
 //vf:assume C05-directdomains: direct-domains built by the real ruleset code from one of three lists (with case-insensitive and case-sensitive rules, includes and exclusions) x 8 host spellings, with a static upstream configured: the route is DIRECT iff some include rule, taken on its own, matches the host and no exclusion does; C17 decides the matcher in general, this ties it to the route
 
 //vf:harness property=C05 nopanic reach=directdomains-direct,directdomains-upstream steps=6000000
